@@ -196,6 +196,9 @@ def _interp_draw_arg(arg, min_val, max_val):
         Drawing argument interpolated
     """
 
+    if len(arg) == 0:  # nothing to rescale, e.g. per-dyad widths of a network without dyads
+        return np.asarray(arg, dtype=float)
+
     vals = np.interp(arg, [min(arg), max(arg)], [min_val, max_val])
 
     return vals
